@@ -11,7 +11,7 @@ from harness import project, tlc
 from harness.par import pmap
 
 PATHS = {"top": ("", ""), "quote": ("> ", "> "), "item": ("- lead\n\n  ", "  ")}
-CELL = {"w": ["ab", "cd", "ef", "gh"], "e": [""], "p": ["x \\| y"], "c": ["`c\\|d`"], "m": ["*em*"]}
+CELL = {"w": ["ab", "cd", "ef", "gh"], "e": [""], "p": ["x \\| y", "x\\\\\\|y"], "c": ["`c\\|d`", "`x\\\\|y`"], "m": ["*em*"]}      # second spellings: a literal backslash directly before the (escaped) pipe
 DELIMS = {"n": ["---", "-", "-----"], "l": [":---", ":-", ":------"], "r": ["---:", "-:", "-----:"], "c": [":---:", ":-:", ":----:"]}
 
 
@@ -45,9 +45,9 @@ def kind_of(cell: str):
     c = cell.strip()
     if c == "":
         return "e"
-    if c == "x \\| y":
+    if c in CELL["p"]:
         return "p"
-    if c == "`c\\|d`":
+    if c in CELL["c"]:
         return "c"
     if c == "*em*":
         return "m"
